@@ -89,7 +89,11 @@ func (c content) etag() string {
 func (c content) lmLine() (string, bool) {
 	switch c.LMKind {
 	case "imf", "rfc850", "asctime":
-		return freshlib.DateLine(c.LM, c.LMKind), true
+		kind := c.LMKind
+		if kind == "rfc850" && c.LM.Year() < 1990 {
+			kind = "imf" // a two-digit year cannot name such a date
+		}
+		return freshlib.DateLine(c.LM, kind), true
 	case "bad":
 		return "yesterday at noon", true
 	}
@@ -504,6 +508,15 @@ var bodyLens = []int{12, 12, 12, 40, 300, 5000}
 func randContent(r *emit.Rand, version int64, now time.Time, emptyBodies int) content {
 	c := content{Version: version, Salt: r.Intn(3), TagKind: emit.Pick(r, tagKinds), LMKind: emit.Pick(r, lmKinds), BodyLen: emit.Pick(r, bodyLens)}
 	c.LM = now.Add(-time.Duration(1+r.Intn(100000)) * time.Minute).Truncate(time.Second)
+	if c.LMKind != "none" && c.LMKind != "bad" && r.Chance(8) {
+		// modification times at and before the Unix epoch (mtime 0 of reproducible repositories, a zero FILETIME):
+		// perfectly good validators
+		c.LM = emit.Pick(r, []time.Time{time.Unix(0, 0), time.Unix(-1, 0), time.Date(1601, 1, 1, 0, 0, 0, 0, time.UTC), time.Unix(1, 0)})
+		c.LMKind = "imf"
+		if r.Chance(60) {
+			c.TagKind = "none" // the date is the only validator
+		}
+	}
 	c.CC = emit.Pick(r, ccForms)
 	c.Exp = freshlib.Expires{Kind: freshlib.ExpAbsent, Form: "absent"}
 	if r.Chance(12) {
